@@ -45,12 +45,13 @@ PROPERTIES = {
         ],
     },
     "C03": {
-        "modules": C05_MODULES + ["contracts.c08_temporaries", "contracts.c08_cleanup", "contracts.c03_lowering", "contracts.c04_reset", "contracts.c04_wrappers", "contracts.c02_assembler", "contracts.c13_types", "contracts.c06_stmts"],
+        "modules": C05_MODULES + ["contracts.c08_temporaries", "contracts.c08_cleanup", "contracts.c03_lowering", "contracts.c03_condselect", "contracts.c04_reset", "contracts.c04_wrappers", "contracts.c02_assembler", "contracts.c13_types", "contracts.c06_stmts"],
         "level": "proof",
         "explanation": "the statement is decided per lowering step, each proved from the real source: (1) the setter replacements of Signal/Variable/Temporary (<<=, .next, ^=, .push, @=, .value) accept exactly the documented target kinds and produce the assignment mode of the operator (C05 setter contracts); (2) IrGenerator._apply_impl lowers an assignment to exactly one SignalAssignment / SignalPush / VariableAssignment per open block according to mode, target kind and context kind (temporaries: immediate in sequential, continuous in concurrent contexts); (3) after an if/else execution continues in exactly the end blocks of both branches (25 x 2 arrangements of how branches end, incl. returns and state transitions), the If node being placed before its branches; (4) ir.Sequential._pushed_resettable_signals gives every pushed root -- also noreset roots and roots pushed only through a slice -- its default at the start of each step (reset_pushed), per event for arbitrary prior sets; (5) the process bodies built by std.sequential execute reset_pushed and then the user step exactly when trigger and step condition hold; (6) cleanup_bool_cast only replaces intermediates whose source is an intermediate, so a bool() taken before a later variable update keeps the old value.",
         "assumptions": COMMON_ASSUME + [
             "VHDL signal / variable semantics (a signal assignment in a process takes effect after the process suspends, the last one wins, unassigned signals hold; variables update immediately; concurrent assignments are continuous) are those of the language standard -- the contracts decide which VHDL statement kind each CoHDL assignment becomes, not the standard's semantics",
-            "NOT decided: match statements, for-break chains and for-else (CondSelect lowering, _prepare_ast.py ast.For / ast.Match), function inlining with return-value redirects (_value_branch._Redirect), capture of run-time indices at access time (_IntrinsicElemAccess): these are whole-AST transformations over the tracer state, outside the per-function contracts built so far",
+            "conditional chains: the lowering of out.CondSelect (what if/elif chains, match statements and for-break chains become in the tracer's output) is under contract -- one case statement over a common value with constant choices, else the nested if chain in source order, default last (542 arrangements of condition kinds, defaults, returns / breaks / transitions, 1-2 open blocks); that the tracer BUILDS the CondSelect with the branches in source order (_prepare_ast.py ast.For / ast.Match / ast.If) is NOT",
+            "NOT decided: function inlining with return-value redirects (_value_branch._Redirect), capture of run-time indices at access time (_IntrinsicElemAccess): whole-AST transformations over the tracer state, outside the per-function contracts built so far",
             "input SEQUENCES are covered by induction over activations only in the sense that every activation runs the same proved step structure; no simulator executes emitted designs",
         ],
         "canaries": [
